@@ -1,7 +1,7 @@
 (* Lemmas for C10 (value level of NDNav navigation). *)
 From Coq Require Import List Arith NArith ZArith Bool Lia.
 Import ListNotations.
-Require Import SR.Base.Res SR.Spec.Layout SR.Model.Layout SR.Model.LayoutValue.
+Require Import SR.Base.Res SR.Spec.Layout SR.Model.Layout SR.Model.LayoutValue SR.Spec.Coherence.
 Open Scope nat_scope.
 
 (* ------------------------------------------------------------------ slices *)
@@ -352,19 +352,6 @@ Section Value.
   Proof. intros r v v' H1 H2. unfold vnav_raw. symmetry. now apply slice_slice. Qed.
 
   (* ---------------------------------------------------------------- schemas without OCCURS DEPENDING ON *)
-  Fixpoint odo_free (s : js) : bool :=
-    match s with
-    | JAtom _ _ => true
-    | JArr _ _ its => odo_free its
-    | JOdo _ _ _ => false
-    | JObj _ ps => odo_free_props ps
-    | JOne _ alts => odo_free_alts alts
-    | JRef _ => true
-    end
-  with odo_free_props (ps : props) : bool :=
-    match ps with PNil => true | PCons _ s r => odo_free s && odo_free_props r end
-  with odo_free_alts (alts : jalts) : bool :=
-    match alts with ANil => true | ACons s r => odo_free s && odo_free_alts r end.
 
   Lemma simple_odo_free :
     (forall s, simple s = true -> odo_free s = true)
@@ -720,11 +707,6 @@ Section Value.
     Qed.
 
     (* ---- containment: a child reached by a name that is not a $ref placeholder *)
-    Definition ref_prop (v : vnav) (k : key) : bool :=
-      match vn_loc v with
-      | WObj _ _ ps => match wfind k ps with Some (WRef _ _) => true | _ => false end
-      | _ => false
-      end.
 
     Lemma name_inside : forall v k v', inv v -> vnav_name v k = Ok v' -> ref_prop v k = false ->
       wstart (vn_loc v) <= wstart (vn_loc v') /\ wend (vn_loc v') <= wend (vn_loc v).
@@ -841,18 +823,6 @@ Section Value.
   Qed.
 
   (* ---------------------------------------------------------------- a $ref occurring inside a location *)
-  Fixpoint sub_ref (l : wloc) (st0 : nat) (t0 : key) : Prop :=
-    match l with
-    | WAtom _ _ _ => False
-    | WArr _ _ _ _ it _ => sub_ref it st0 t0
-    | WObj _ _ ps => sub_ref_props ps st0 t0
-    | WOne _ _ alts => sub_ref_alts alts st0 t0
-    | WRef st t => st = st0 /\ t = t0
-    end
-  with sub_ref_props (ps : wprops) (st0 : nat) (t0 : key) : Prop :=
-    match ps with WPNil => False | WPCons _ l r => sub_ref l st0 t0 \/ sub_ref_props r st0 t0 end
-  with sub_ref_alts (ls : walts) (st0 : nat) (t0 : key) : Prop :=
-    match ls with WANil => False | WACons l r => sub_ref l st0 t0 \/ sub_ref_alts r st0 t0 end.
 
   (* ---------------------------------------------------------------- without ODO the tree does not depend on the record *)
   Lemma walkv_record_free : forall (r r' : list B),
@@ -1114,8 +1084,6 @@ Section Erase.
       rewrite IHr. destruct (walkv_alts dcount r rest st an1) as [[ls an2]|e]; reflexivity.
   Qed.
 
-  Definition erase_nav (v : vnav) : nav := mknav (erase (vn_loc v)) (erase_an (vn_an v)).
-  Definition erase_rnav (x : res vnav) : res nav := match x with Ok v => Ok (erase_nav v) | Err e => Err e end.
 
   Lemma nav_of_erase : forall s, nav_of dcount r s = erase_rnav (vnav_of dcount r s).
   Proof.
@@ -1143,3 +1111,137 @@ Section Erase.
   Lemma nav_raw_erase : forall v, nav_raw r (erase_nav v) = vnav_raw r v.
   Proof. intros [l an]. unfold nav_raw, vnav_raw, erase_nav, lend, wend. cbn [n_loc vn_loc]. now rewrite lstart_erase, lsize_erase. Qed.
 End Erase.
+
+(* ------------------------------------------------------------------ the location tree depends on the record only through the ODO counters *)
+(* the counters an OCCURS DEPENDING ON inside s consults *)
+
+Section Counters.
+  Variable B : Type.
+  Variable dcount : list B -> nat.
+
+  Lemma key_eqb_eq : forall a b, key_eqb a b = true -> a = b.
+  Proof. intros [i|i] [j|j] E; cbn in E; try discriminate; apply N.eqb_eq in E; now subst. Qed.
+
+  Lemma wlookup_in_key : forall k an l, wlookup k an = Some l -> In (k, l) an.
+  Proof.
+    intros k an. induction an as [|[k' l'] an IH]; intros l H; [discriminate|]. cbn [wlookup] in H.
+    destruct (key_eqb k k') eqn:E.
+    - inversion H; subst. apply key_eqb_eq in E. subst. now left.
+    - right. now apply IH.
+  Qed.
+
+  (* anchors only grow *)
+  Lemma walkv_extends : forall (r : list B),
+    (forall s st an l an', walkv dcount r s st an = Ok (l, an') -> exists new, an' = new ++ an)
+    /\ (forall ps off an pls off' an', walkv_props dcount r ps off an = Ok (pls, off', an') -> exists new, an' = new ++ an)
+    /\ (forall alts st an als an', walkv_alts dcount r alts st an = Ok (als, an') -> exists new, an' = new ++ an).
+  Proof.
+    intros r. apply js_props_alts_ind.
+    - intros a sz st an l an' E. rewrite walkv_atom in E. inversion E; subst.
+      exists (wreg a (WAtom a st sz) []). now rewrite <- wreg_app.
+    - intros a n its IH st an l an' E. rewrite walkv_arr in E.
+      destruct (walkv dcount r its st an) as [[sub an1]|e] eqn:Es; [|discriminate]. inversion E; subst.
+      destruct (IH _ _ _ _ Es) as [new Hn]. subst an1. eexists. now rewrite wreg_app.
+    - intros a c its IH st an l an' E. rewrite walkv_odo in E.
+      destruct (wlookup (KName c) an) as [[ca cst csz| | | |]|]; try discriminate.
+      destruct (walkv dcount r its st an) as [[sub an1]|e] eqn:Es; [|discriminate]. inversion E; subst.
+      destruct (IH _ _ _ _ Es) as [new Hn]. subst an1. eexists. now rewrite wreg_app.
+    - intros a ps IH st an l an' E. rewrite walkv_obj in E.
+      destruct (walkv_props dcount r ps st an) as [[[pls off] an1]|e] eqn:Es; [|discriminate]. inversion E; subst.
+      destruct (IH _ _ _ _ _ Es) as [new Hn]. subst an1. eexists. now rewrite wreg_app.
+    - intros a alts IH st an l an' E. destruct alts as [|s0 rest]; [discriminate|]. rewrite walkv_one in E.
+      destruct (walkv_alts dcount r (ACons s0 rest) st an) as [[als an1]|e] eqn:Es; [|discriminate]. inversion E; subst.
+      destruct (IH _ _ _ _ Es) as [new Hn]. subst an1. eexists. now rewrite wreg_app.
+    - intros t st an l an' E. rewrite walkv_ref in E. inversion E; subst. now exists [].
+    - intros off an pls off' an' E. rewrite walkv_props_nil in E. inversion E; subst. now exists [].
+    - intros k s IHs rest IHr off an pls off' an' E. rewrite walkv_props_cons in E.
+      destruct (walkv dcount r s off an) as [[pl an1]|e] eqn:Es; [|discriminate].
+      destruct (walkv_props dcount r rest (off + wsize pl) (wreg (js_anchor s) pl an1)) as [[[rl off1] an2]|e] eqn:Er; [|discriminate].
+      inversion E; subst. destruct (IHs _ _ _ _ Es) as [n1 H1]. destruct (IHr _ _ _ _ _ Er) as [n2 H2]. subst.
+      exists (n2 ++ wreg (js_anchor s) pl n1). now rewrite <- app_assoc, wreg_app.
+    - intros st an als an' E. rewrite walkv_alts_nil in E. inversion E; subst. now exists [].
+    - intros s IHs rest IHr st an als an' E. rewrite walkv_alts_cons in E.
+      destruct (walkv dcount r s st an) as [[l an1]|e] eqn:Es; [|discriminate].
+      destruct (walkv_alts dcount r rest st an1) as [[ls an2]|e] eqn:Er; [|discriminate].
+      inversion E; subst. destruct (IHs _ _ _ _ Es) as [n1 H1]. destruct (IHr _ _ _ _ Er) as [n2 H2]. subst.
+      exists (n2 ++ n1). now rewrite <- app_assoc.
+  Qed.
+
+  (* two records that agree (as far as the count goes) on every counter field the walk registered
+     give the same location tree and the same anchors *)
+  Definition counters_agree (r r' : list B) (ks : list id) (an : wanchors) : Prop :=
+    forall c a cst csz, In c ks -> In (KName c, WAtom a cst csz) an ->
+      dcount (slice r cst (cst + csz)) = dcount (slice r' cst (cst + csz)).
+
+  Lemma counters_agree_sub : forall r r' ks ks' an an',
+    (forall c, In c ks' -> In c ks) -> (forall x, In x an' -> In x an) ->
+    counters_agree r r' ks an -> counters_agree r r' ks' an'.
+  Proof. intros r r' ks ks' an an' Hk Ha H c a cst csz Hc Hin. apply (H c a); auto. Qed.
+
+  Lemma walkv_counters : forall (r r' : list B),
+    (forall s st an l an', walkv dcount r s st an = Ok (l, an') -> counters_agree r r' (odo_keys s) an' ->
+       walkv dcount r' s st an = Ok (l, an'))
+    /\ (forall ps off an pls off' an', walkv_props dcount r ps off an = Ok (pls, off', an') -> counters_agree r r' (odo_keys_props ps) an' ->
+       walkv_props dcount r' ps off an = Ok (pls, off', an'))
+    /\ (forall alts st an als an', walkv_alts dcount r alts st an = Ok (als, an') -> counters_agree r r' (odo_keys_alts alts) an' ->
+       walkv_alts dcount r' alts st an = Ok (als, an')).
+  Proof.
+    intros r r'. apply js_props_alts_ind.
+    - intros a sz st an l an' E _. rewrite walkv_atom in *. exact E.
+    - intros a n its IH st an l an' E H. rewrite walkv_arr in *.
+      destruct (walkv dcount r its st an) as [[sub an1]|e] eqn:Es; [|discriminate]. inversion E; subst.
+      rewrite (IH _ _ _ _ Es); [reflexivity|].
+      eapply counters_agree_sub; [| |exact H]; [auto|]. intros x Hx. destruct a; [now right|exact Hx].
+    - intros a c its IH st an l an' E H. rewrite walkv_odo in *.
+      destruct (wlookup (KName c) an) as [[ca cst csz| | | |]|] eqn:El; try discriminate.
+      destruct (walkv dcount r its st an) as [[sub an1]|e] eqn:Es; [|discriminate]. inversion E; subst.
+      destruct (proj1 (walkv_extends r) _ _ _ _ _ Es) as [new Hn]. subst an1.
+      assert (Hc : dcount (slice r cst (cst + csz)) = dcount (slice r' cst (cst + csz))).
+      { apply (H c ca); [now left|]. apply wlookup_in_key in El.
+        destruct a; [right|]; apply in_or_app; now right. }
+      rewrite (IH _ _ _ _ Es).
+      + now rewrite Hc.
+      + eapply counters_agree_sub; [| |exact H]; [intros c' Hc'; now right|].
+        intros x Hx. destruct a; [now right|exact Hx].
+    - intros a ps IH st an l an' E H. rewrite walkv_obj in *.
+      destruct (walkv_props dcount r ps st an) as [[[pls off] an1]|e] eqn:Es; [|discriminate]. inversion E; subst.
+      rewrite (IH _ _ _ _ _ Es); [reflexivity|].
+      eapply counters_agree_sub; [| |exact H]; [auto|]. intros x Hx. destruct a; [now right|exact Hx].
+    - intros a alts IH st an l an' E H. destruct alts as [|s0 rest]; [discriminate|]. rewrite walkv_one in *.
+      destruct (walkv_alts dcount r (ACons s0 rest) st an) as [[als an1]|e] eqn:Es; [|discriminate]. inversion E; subst.
+      rewrite (IH _ _ _ _ Es); [reflexivity|].
+      eapply counters_agree_sub; [| |exact H]; [auto|]. intros x Hx. destruct a; [now right|exact Hx].
+    - intros t st an l an' E _. exact E.
+    - intros off an pls off' an' E _. exact E.
+    - intros k s IHs rest IHr off an pls off' an' E H. rewrite walkv_props_cons in *.
+      destruct (walkv dcount r s off an) as [[pl an1]|e] eqn:Es; [|discriminate].
+      destruct (walkv_props dcount r rest (off + wsize pl) (wreg (js_anchor s) pl an1)) as [[[rl off1] an2]|e] eqn:Er; [|discriminate].
+      inversion E; subst.
+      destruct (proj1 (proj2 (walkv_extends r)) _ _ _ _ _ _ Er) as [n2 H2].
+      rewrite (IHs _ _ _ _ Es).
+      + rewrite (IHr _ _ _ _ _ Er); [reflexivity|].
+        eapply counters_agree_sub; [| |exact H]; [|auto]. intros c Hc. cbn [odo_keys_props]. apply in_or_app. now right.
+      + eapply counters_agree_sub; [| |exact H].
+        * intros c Hc. cbn [odo_keys_props]. apply in_or_app. now left.
+        * intros x Hx. rewrite H2. apply in_or_app. right. destruct (js_anchor s); [now right|exact Hx].
+    - intros st an als an' E _. exact E.
+    - intros s IHs rest IHr st an als an' E H. rewrite walkv_alts_cons in *.
+      destruct (walkv dcount r s st an) as [[l an1]|e] eqn:Es; [|discriminate].
+      destruct (walkv_alts dcount r rest st an1) as [[ls an2]|e] eqn:Er; [|discriminate].
+      inversion E; subst.
+      destruct (proj2 (proj2 (walkv_extends r)) _ _ _ _ _ Er) as [n2 H2].
+      rewrite (IHs _ _ _ _ Es).
+      + rewrite (IHr _ _ _ _ Er); [reflexivity|].
+        eapply counters_agree_sub; [| |exact H]; [|auto]. intros c Hc. cbn [odo_keys_alts]. apply in_or_app. now right.
+      + eapply counters_agree_sub; [| |exact H].
+        * intros c Hc. cbn [odo_keys_alts]. apply in_or_app. now left.
+        * intros x Hx. rewrite H2. apply in_or_app. now right.
+  Qed.
+
+  Theorem nav_counters : forall (r r' : list B) s v,
+    vnav_of dcount r s = Ok v -> counters_agree r r' (odo_keys s) (vn_an v) -> vnav_of dcount r' s = Ok v.
+  Proof.
+    intros r r' s v E H. unfold vnav_of in *. destruct (walkv dcount r s 0 []) as [[l an]|e] eqn:Ew; [|discriminate].
+    inversion E; subst. cbn [vn_an] in H. now rewrite (proj1 (walkv_counters r r') _ _ _ _ _ Ew H).
+  Qed.
+End Counters.
